@@ -1,46 +1,71 @@
 """C07 - return and advantage estimates obey their recurrences and are causal.
 
-(work in progress: first task only)
+Functions under contract (real source interpreted from /repo):
+  rl_blox.blox.gae.compute_gae (+ scan body calc_advantage_per_step)
+  rl_blox.blox.return_estimates.discounted_n_step_return
+  rl_blox.algorithm.reinforce.discounted_reward_to_go
+  rl_blox.algorithm.reinforce.EpisodeDataset.prepare_policy_gradient_dataset   (bounded episode sizes)
+  rl_blox.algorithm.a2c.prepare_a2c_batch (+ get_gae_for_env under jax.vmap)
+  rl_blox.algorithm.ppo.update_ppo          (the GAE call on the flattened rollout)
+  rl_blox.algorithm.ppo.collect_trajectories (reshape_batch, next_value bootstrap; bounded sizes)
+  rl_blox.algorithm.mrq.mrq_loss            (n-step critic target)
+
+Specifications are the textbook recurrences, axiomatised as uninterpreted
+functions (never read off the code):
+  reward-to-go   G_t = r_t + gamma G_{t+1},                      G_T = 0
+  GAE            A_t = delta_t + gamma lambda (1-term_t) A_{t+1}, A_T = 0,
+                 delta_t = r_t + gamma V'_t (1-term_t) - V_t
+  n-step return  R_0 = 0, D_0 = 1, R_{t+1} = R_t + D_t r_t, D_{t+1} = D_t gamma (1-term_t)
+                 (R_n = sum_{t<n} r_t prod_{s<t} gamma(1-term_s), D_n = prod_{t<n} gamma(1-term_t))
+Equality of a fold (python loop / lax.scan) with its recurrence is proved by
+an inductive invariant (loop cut / pyvc.lib.ext_returns.induct).  Causality and
+non-interference are proved on two input copies that agree exactly on the data
+the estimate may depend on.
 """
+import itertools
 from fractions import Fraction
 
 import z3
 
 from pyvc import core as C
 from pyvc import tensor as T
-from pyvc.core import INT, REAL, Sym
+from pyvc.core import BOOL, INT, KEY, REAL, Builtin, Obj, Sym
+from pyvc.interp import LoopSpec
+from pyvc.lib import LIB
 from pyvc.lib.ext_returns import definitions_of, induct, oblige_hinted
 from pyvc.lib.ext_symlist import SymList, fresh_symlist
-from pyvc.interp import LoopSpec
 from pyvc.runner import Task
 
-from .nets import flags01, mk_net, net_call, oblige_tensor_eq, rows_tensor
+from .nets import mk_net, net_call, rows_tensor
 
 PROPERTY = "C07"
 LEVEL = "proof"
-READY = False
 
 
+# ===================================================================== helpers
 def zr(x):
     return C.as_real(x)
 
 
-def gae_spec(E, name, n, r, v, nv, term, gamma, lam):
-    A = z3.Function(E.st.fresh_name(name), INT, REAL)
-    nz = T.dim_z(n)
-    g, l = zr(gamma), zr(lam)
-
-    def delta(t):
-        return zr(r.at(t)) + g * zr(nv.at(t)) * (1 - zr(term.at(t))) - zr(v.at(t))
-
-    E.assume(A(nz) == 0)
-    E.st.assume_forall([INT], lambda t: z3.Implies(z3.And(t >= 0, t < nz), A(t) == delta(t) + g * l * (1 - zr(term.at(t))) * A(t + 1)), f"{name}.rec")
-    return A
+def conc(*dims):
+    return all(isinstance(d, int) for d in dims)
 
 
-def flags2(E, name, shape):
+def axiom(E, name, ranges, fn):
+    """forall 0 <= i_k < ranges[k]: fn(*i).  Concrete ranges give ground facts (no quantifier,
+    counter-models are exact); symbolic ranges give the quantified hypothesis `name`."""
+    if conc(*ranges):
+        for idx in itertools.product(*[range(h) for h in ranges]):
+            E.assume(fn(*[z3.IntVal(i) for i in idx]))
+        return
+    dz = [T.dim_z(h) for h in ranges]
+    E.st.assume_forall([INT] * len(ranges), lambda *i: z3.Implies(z3.And(*[z3.And(i[k] >= 0, i[k] < dz[k]) for k in range(len(dz))]), fn(*i)), name)
+
+
+def flags(E, name, shape):
+    """termination flags: integers 0 / 1"""
     t = T.fresh_tensor(name, shape, INT)
-    E.st.assume_forall([INT] * len(shape), lambda *i: z3.Or(C.as_int(t.at(*i)) == 0, C.as_int(t.at(*i)) == 1), f"{name}.01")
+    axiom(E, f"{name}.01", list(shape), lambda *i: z3.Or(C.as_int(t.at(*i)) == 0, C.as_int(t.at(*i)) == 1))
     return t
 
 
@@ -51,34 +76,97 @@ def shape_is(E, name, t, shape):
         E.st.fail(name, f"shape {getattr(t, 'shape', type(t).__name__)} instead of {shape}")
 
 
-def forall_hinted(E, name, sorts, fn, hints, hint="sk"):
-    """Skolemised forall-goal proved from chosen instances of the hypotheses; assumed afterwards"""
-    sks = [E.st.fresh(f"{hint}{i}", s) for i, s in enumerate(sorts)]
-    oblige_hinted(E, name, fn(*sks), hints(*sks))
-    E.st.assume_forall(list(sorts), fn, name)
+def known(E, hints):
+    """drop hints that name no quantified hypothesis (concrete sizes: the facts are ground and in the path condition)"""
+    names = [q.name for q in E.st.qfacts]
+    return [(p, t) for p, t in hints if any(nm.startswith(p) for nm in names)]
 
 
-def fold_is(E, name, n, inv, chain, sorts=(), using=None, base_hints=None, step_hints=None):
-    """the last lax.scan fold satisfies the inductive invariant inv(scan, *params, k).
-    When the scan was unrolled (concrete sizes) there is no fold to induct over: the
-    consequence is checked directly, under the same obligation name (used for counterexample
-    confirmation and the bounded stand-ins), as a chain [(goal, hints, carry constant), ...]
-    in scan order, each link proved from the definition of its carry and the previous link."""
+def forall_idx(E, name, ranges, fn, hints=None, only=None, hint="ix"):
+    """forall 0 <= i_k < ranges[k]: fn(*i) (z3 Bool), assumed afterwards.
+    symbolic ranges: Skolemised, proved from the instances hints(*i) of the hypotheses;
+    concrete ranges: one VC per index tuple, proved from the facts only(*idx) (minimal context)
+    - a VC that is not provable that way is decided against the complete context."""
+    if conc(*ranges):
+        for idx in itertools.product(*[range(h) for h in ranges]):
+            iz = [z3.IntVal(i) for i in idx]
+            oblige_hinted(E, name, fn(*iz), [], assume_after=True, only=only(*idx) if only else None)
+        return
+    dz = [T.dim_z(h) for h in ranges]
+    sks = [E.st.fresh(f"{hint}{k}", INT) for k in range(len(ranges))]
+
+    def guarded(*i):
+        return z3.Implies(z3.And(*[z3.And(i[k] >= 0, i[k] < dz[k]) for k in range(len(dz))]), fn(*i))
+
+    n0 = len(E.st.results)
+    oblige_hinted(E, name, guarded(*sks), known(E, hints(*sks)) if hints else [])
+    ok = E.st.suppress or (len(E.st.results) > n0 and E.st.results[-1].verdict == "discharged")
+    if ok:  # only a proved statement becomes a hypothesis
+        E.st.assume_forall([INT] * len(ranges), guarded, name)
+    return ok
+
+
+def link(E, name, goal, only):
+    """one VC proved from a minimal context (decided against the complete context if that fails); True iff discharged"""
+    n0 = len(E.st.results)
+    oblige_hinted(E, name, goal, [], only=only)
+    return E.st.suppress or (len(E.st.results) > n0 and E.st.results[-1].verdict == "discharged")
+
+
+def last_scan(E):
     scans = E.st.ghost.get("scans") or []
-    if scans:
-        sc = scans[-1]
-        return induct(E, name, n, list(sorts), lambda *a: inv(sc, *a), using=using,
-                      base_hints=(lambda *a: base_hints(sc, *a)) if base_hints else None,
-                      step_hints=(lambda *a: step_hints(sc, *a)) if step_hints else None)
-    E.st.ok(f"{name}.base")
-    prev = []
-    for goal, hints, consts in chain():
-        g = C.as_bool(goal)
-        oblige_hinted(E, f"{name}.step", g, hints, assume_after=True, only=definitions_of(E, *consts) + prev)
-        prev = [f for f in E.st.pc[-1:] if f.get_id() == g.get_id()]
-    return True
+    return scans[-1] if scans else None
 
 
+def fold_is(E, name, n, inv, sorts=(), base_hints=None, step_hints=None):
+    """the last symbolic lax.scan satisfies the inductive invariant inv(scan, *params, k)
+    (pyvc.lib.ext_returns.induct: base and step are obliged, then the invariant is available for all k)"""
+    sc = last_scan(E)
+    return induct(E, name, n, list(sorts), lambda *a: inv(sc, *a),
+                  base_hints=(lambda *a: known(E, base_hints(sc, *a))) if base_hints else None,
+                  step_hints=(lambda *a: known(E, step_hints(sc, *a))) if step_hints else None)
+
+
+# ============================================================== specifications
+def gae_spec(E, name, n, r, v, nv, term, gamma, lam):
+    """A_t = delta_t + gamma lam (1-term_t) A_{t+1}, A_n = 0  (r, v, nv, term: z3 Int -> z3 Real)"""
+    A = z3.Function(E.st.fresh_name(name), INT, REAL)
+    g, l = zr(gamma), zr(lam)
+    E.assume(A(T.dim_z(n)) == 0)
+    axiom(E, f"{name}.rec", [n], lambda t: A(t) == r(t) + g * nv(t) * (1 - term(t)) - v(t) + g * l * (1 - term(t)) * A(t + 1))
+    return A
+
+
+def gae_spec_env(E, name, n, N, r, v, nv, term, gamma, lam):
+    """per-environment GAE A(e, t), from environment e's own data only (r, v, nv, term: (t, e) -> z3 Real)"""
+    A = z3.Function(E.st.fresh_name(name), INT, INT, REAL)
+    g, l, nz = zr(gamma), zr(lam), T.dim_z(n)
+    axiom(E, f"{name}.end", [N], lambda e: A(e, nz) == 0)
+    axiom(E, f"{name}.rec", [N, n], lambda e, t: A(e, t) == r(t, e) + g * nv(t, e) * (1 - term(t, e)) - v(t, e) + g * l * (1 - term(t, e)) * A(e, t + 1))
+    return A
+
+
+def nstep_spec(E, name, H, r, term, gamma):
+    """n-step return R and residual discount D of ONE reward / termination sequence as recurrences over
+    the horizon position (r, term: z3 Int -> z3 Real)"""
+    R = z3.Function(E.st.fresh_name(name + "_R"), INT, REAL)
+    D = z3.Function(E.st.fresh_name(name + "_D"), INT, REAL)
+    g = zr(gamma)
+    E.assume(z3.And(R(0) == 0, D(0) == 1))
+    axiom(E, f"{name}.rec", [H], lambda t: z3.And(R(t + 1) == R(t) + D(t) * r(t), D(t + 1) == D(t) * g * (1 - term(t))))
+    return R, D
+
+
+def rtg_spec(E, name, n, rew, gamma):
+    """G_t = r_t + gamma G_{t+1}, G_n = 0   (rew: z3 Int -> z3 Real)"""
+    G = z3.Function(E.st.fresh_name(name), INT, REAL)
+    g = zr(gamma)
+    E.assume(G(T.dim_z(n)) == 0)
+    axiom(E, f"{name}.rec", [n], lambda t: G(t) == rew(t) + g * G(t + 1))
+    return G
+
+
+# ================================================================= compute_gae
 GAE = "rl_blox.blox.gae.compute_gae"
 
 
@@ -86,21 +174,36 @@ def gae_inputs(E, n, sfx=""):
     r = T.fresh_tensor("reward" + sfx, (n,), REAL)
     v = T.fresh_tensor("value" + sfx, (n,), REAL)
     nv = T.fresh_tensor("next_value" + sfx, (n,), REAL)
-    term = flags01(E, "terminated" + sfx, n)
+    term = flags(E, "terminated" + sfx, (n,))
     return r, v, nv, term
 
 
 def run_gae(E, pre, n, inp, gamma, lam, defaults=False):
     """call the real compute_gae and prove  advantages[t] == A_t, returns[t] == A_t + V_t  for all t"""
     r, v, nv, term = inp
-    A = gae_spec(E, pre + "A", n, r, v, nv, term, Fraction(99, 100) if defaults else gamma, Fraction(95, 100) if defaults else lam)
+    A = gae_spec(E, pre + "A", n, lambda t: zr(r.at(t)), lambda t: zr(v.at(t)), lambda t: zr(nv.at(t)), lambda t: zr(term.at(t)),
+                 Fraction(99, 100) if defaults else gamma, Fraction(95, 100) if defaults else lam)
     res = E.call(GAE, r, v, nv, term) if defaults else E.call(GAE, r, v, nv, term, gamma, lam)
     adv, ret = res.get("advantages"), res.get("returns")
     nz = T.dim_z(n)
+    shape_is(E, pre + "gae.advantages_shape", adv, (n,))
+    shape_is(E, pre + "gae.returns_shape", ret, (n,))
+    if conc(n):
+        prev = []
+        for t in range(n - 1, -1, -1):  # scan order; each link from the carry's definition and the previous link
+            g = C.as_bool(C.compare("==", adv.at(t), Sym(A(z3.IntVal(t)))))
+            oblige_hinted(E, pre + "gae.advantage_is_recurrence", g, [], assume_after=True, only=definitions_of(E, adv.at(t), A(nz), A(z3.IntVal(t))) + prev)
+            prev = [g]
+        for t in range(n):
+            oblige_hinted(E, pre + "gae.returns_is_adv_plus_value", zr(ret.at(t)) == A(t) + zr(v.at(t)), [], assume_after=True,
+                          only=[f for f in E.st.pc if z3.is_eq(f) and f.arg(1).get_id() == A(z3.IntVal(t)).get_id()])
+        return A, adv, ret
     fold_is(E, pre + "gae.fold", n, lambda sc, k: sc["carry"](k)[0].z == A(nz - k),
-            lambda: [(C.compare("==", adv.at(t), Sym(A(z3.IntVal(t)))), [(pre + "A.rec", (t,))], [adv.at(t), A(nz)]) for t in range(n - 1, -1, -1)])
-    oblige_tensor_eq(E, pre + "gae.advantage_is_recurrence", adv, T.Tensor((n,), lambda t: Sym(A(C.to_z3(t))), REAL))
-    oblige_tensor_eq(E, pre + "gae.returns_is_adv_plus_value", ret, T.Tensor((n,), lambda t: Sym(A(C.to_z3(t)) + zr(v.at(t))), REAL))
+            base_hints=lambda sc: [], step_hints=lambda sc, k: [(f"scan{sc['id']}.step", (k,)), (pre + "A.rec", (nz - 1 - k,))])
+    sid = last_scan(E)["id"]
+    hints = lambda t: [(f"scan{sid}.step", (nz - 1 - t,)), (pre + "gae.fold.ind", (nz - t,)), (pre + "gae.fold.ind", (nz - 1 - t,))]  # noqa: E731
+    forall_idx(E, pre + "gae.advantage_is_recurrence", [n], lambda t: zr(adv.at(t)) == A(t), hints)
+    forall_idx(E, pre + "gae.returns_is_adv_plus_value", [n], lambda t: zr(ret.at(t)) == A(t) + zr(v.at(t)), hints)
     return A, adv, ret
 
 
@@ -124,75 +227,107 @@ def h_gae_ni(E):
     E.assume(C.band(t0 <= last, last < n))
     E.assume(C.bor(C.compare("==", c1[3].at(last), 1), C.compare("==", last, n - 1)))
     E.st.add_pool(t0, last)
-    E.st.assume_forall([INT], lambda s: z3.Implies(z3.And(s >= t0.z, s <= last.z), z3.And(*[zr(a.at(s)) == zr(b.at(s)) for a, b in zip(c1, c2)])), "agree")
+    axiom(E, "agree", [n], lambda s: z3.Implies(z3.And(s >= t0.z, s <= last.z), z3.And(*[zr(a.at(s)) == zr(b.at(s)) for a, b in zip(c1, c2)])))
     A1, adv1, ret1 = run_gae(E, "c1.", n, c1, gamma, lam)
     A2, adv2, ret2 = run_gae(E, "c2.", n, c2, gamma, lam)
-    induct(E, "gae.spec_noninterference", last - t0, [],
-           lambda k: z3.Implies(k <= last.z - t0.z, A1(last.z - k) == A2(last.z - k)), using=["c1.A", "c2.A", "agree", "terminated"])
-    E.oblige("gae.advantage_independent_of_earlier_and_post_terminal_data", C.compare("==", adv1.at(t0), adv2.at(t0)))
-    E.oblige("gae.returns_independent_of_earlier_and_post_terminal_data", C.compare("==", ret1.at(t0), ret2.at(t0)))
-    E.oblige("canary.gae_ni.earlier_step_differs", C.implies(t0 >= 1, C.compare("==", adv1.at(t0 - 1), adv2.at(t0 - 1))), assume_after=False)
+    if conc(n):
+        E.oblige("gae.advantage_independent_of_earlier_and_post_terminal_data", C.compare("==", adv1.at(t0), adv2.at(t0)))
+        E.oblige("gae.returns_independent_of_earlier_and_post_terminal_data", C.compare("==", ret1.at(t0), ret2.at(t0)))
+        return
+    lz, tz = last.z, t0.z
+    induct(E, "gae.spec_noninterference", last - t0, [], lambda k: z3.Implies(k <= lz - tz, A1(lz - k) == A2(lz - k)),
+           base_hints=lambda: [("c1.A.rec", (lz,)), ("c2.A.rec", (lz,)), ("agree", (lz,))],
+           step_hints=lambda k: [("c1.A.rec", (lz - k - 1,)), ("c2.A.rec", (lz - k - 1,)), ("agree", (lz - k - 1,))])
+    hints = [("gae.spec_noninterference.ind", (lz - tz,)), ("c1.gae.advantage_is_recurrence", (tz,)), ("c2.gae.advantage_is_recurrence", (tz,)),
+             ("c1.gae.returns_is_adv_plus_value", (tz,)), ("c2.gae.returns_is_adv_plus_value", (tz,)), ("agree", (tz,))]
+    oblige_hinted(E, "gae.advantage_independent_of_earlier_and_post_terminal_data", C.compare("==", adv1.at(t0), adv2.at(t0)), hints)
+    oblige_hinted(E, "gae.returns_independent_of_earlier_and_post_terminal_data", C.compare("==", ret1.at(t0), ret2.at(t0)), hints)
+    # the data at t0-1 is NOT shared: the estimates there may differ (must be refuted)
+    oblige_hinted(E, "canary.gae_ni.earlier_step_differs", C.implies(t0 >= 1, C.compare("==", adv1.at(t0 - 1), adv2.at(t0 - 1))),
+                  [("c1.gae.advantage_is_recurrence", (tz - 1,)), ("c2.gae.advantage_is_recurrence", (tz - 1,)), ("c1.A.rec", (tz - 1,)), ("c2.A.rec", (tz - 1,))])
 
 
-# ------------------------------------------------------------ n-step return
+# =============================================================== n-step return
 NSTEP = "rl_blox.blox.return_estimates.discounted_n_step_return"
-
-
-def nstep_spec(E, name, H, r, term, gamma):
-    """R^n and its residual discount as recurrences over the horizon position t:
-    R(b,0)=0, D(b,0)=1, R(b,t+1)=R(b,t)+D(b,t)*r[b,t], D(b,t+1)=D(b,t)*gamma*(1-term[b,t])"""
-    R = z3.Function(E.st.fresh_name(name + "_R"), INT, INT, REAL)
-    D = z3.Function(E.st.fresh_name(name + "_D"), INT, INT, REAL)
-    hz, g = T.dim_z(H), zr(gamma)
-    E.st.assume_forall([INT], lambda b: z3.And(R(b, 0) == 0, D(b, 0) == 1), f"{name}.base")
-    E.st.assume_forall([INT, INT], lambda b, t: z3.Implies(z3.And(t >= 0, t < hz), z3.And(
-        R(b, t + 1) == R(b, t) + D(b, t) * zr(r.at(b, t)),
-        D(b, t + 1) == D(b, t) * g * (1 - zr(term.at(b, t))))), f"{name}.rec")
-    return R, D
 
 
 def nstep_loop(L):
     g = L.E.st.ghost["c07.nstep"]
     b0, R, D = g["b0"], g["R"], g["D"]
     it = C.to_z3(L.it)
-    return [("return_is_partial_sum", C.compare("==", L["n_step_return"].at(b0), Sym(R(b0.z, it)))),
-            ("discount_is_partial_product", C.compare("==", L["discount"].at(b0), Sym(D(b0.z, it))))]
+    return [("return_is_partial_sum", C.compare("==", L["n_step_return"].at(b0), Sym(R(it)))),
+            ("discount_is_partial_product", C.compare("==", L["discount"].at(b0), Sym(D(it))))]
 
 
 def setup_nstep(shared):
     shared.loop_specs[(NSTEP, 0)] = LoopSpec(inv=nstep_loop)
 
 
-def h_nstep(E):
-    B, H = E.dim("B"), E.dim("H")
-    r = T.fresh_tensor("reward", (B, H), REAL)
-    term = flags2(E, "terminated", (B, H))
-    gamma = E.real("gamma", 0, 1)
-    R, D = nstep_spec(E, "nstep", H, r, term, gamma)
-    b0 = E.int("b0", 0)
-    E.assume(b0 < B)
-    E.st.add_pool(b0)
+def run_nstep(E, pre, B, H, r, term, gamma, b0):
+    """real discounted_n_step_return; outputs of the generic row b0 equal R_H / D_H of that row's own sequence"""
+    R, D = nstep_spec(E, pre + "nstep", H, lambda t: zr(r.at(b0, t)), lambda t: zr(term.at(b0, t)), gamma)
     E.st.ghost["c07.nstep"] = dict(b0=b0, R=R, D=D)
     ret, disc = E.call(NSTEP, r, term, gamma)
     hz = T.dim_z(H)
-    shape_is(E, "nstep.return_shape", ret, (B,))
-    shape_is(E, "nstep.discount_shape", disc, (B,))
-    E.oblige("nstep.return_is_truncated_discounted_sum", C.compare("==", ret.at(b0), Sym(R(b0.z, hz))))
-    E.oblige("nstep.discount_is_residual_product", C.compare("==", disc.at(b0), Sym(D(b0.z, hz))))
-    E.oblige("canary.nstep", C.compare("==", ret.at(b0), 0), assume_after=False)
+    shape_is(E, pre + "nstep.return_shape", ret, (B,))
+    shape_is(E, pre + "nstep.discount_shape", disc, (B,))
+    E.oblige(pre + "nstep.return_is_truncated_discounted_sum", C.compare("==", ret.at(b0), Sym(R(hz))))
+    E.oblige(pre + "nstep.discount_is_residual_product", C.compare("==", disc.at(b0), Sym(D(hz))))
+    return R, D, ret, disc
 
 
-# ------------------------------------------------------------ reward-to-go
+def generic_row(E, B, name="b0"):
+    b0 = E.int(name, 0)
+    E.assume(b0 < B)
+    E.st.add_pool(b0)
+    return b0
+
+
+def mk_h_nstep(H_=None):
+    def h(E):
+        B = E.dim("B")
+        H = H_ if H_ is not None else E.dim("H")
+        r = T.fresh_tensor("reward", (B, H), REAL)
+        term = flags(E, "terminated", (B, H))
+        gamma = E.real("gamma", 0, 1)
+        b0 = generic_row(E, B)
+        R, D, ret, disc = run_nstep(E, "", B, H, r, term, gamma, b0)
+        E.oblige("canary.nstep", C.compare("==", ret.at(b0), 0), assume_after=False)
+
+    return h
+
+
+def h_nstep_ni(E):
+    """row b0's outputs depend only on row b0 up to its first terminated step c: two batches that agree on
+    row b0 at positions 0..c (term[b0, c] = 1) - and on nothing else - give the same R and discount 0"""
+    B, H = E.dim("B"), E.dim("H")
+    gamma = E.real("gamma", 0, 1)
+    r1, r2 = T.fresh_tensor("reward1", (B, H), REAL), T.fresh_tensor("reward2", (B, H), REAL)
+    t1, t2 = flags(E, "terminated1", (B, H)), flags(E, "terminated2", (B, H))
+    b0 = generic_row(E, B)
+    c = E.int("first_term", 0)
+    E.assume(c < H)
+    E.assume(C.compare("==", t1.at(b0, c), 1))
+    E.st.add_pool(c)
+    axiom(E, "agree", [H], lambda s: z3.Implies(s <= c.z, z3.And(zr(r1.at(b0, s)) == zr(r2.at(b0, s)), zr(t1.at(b0, s)) == zr(t2.at(b0, s)))))
+    R1, D1, ret1, disc1 = run_nstep(E, "c1.", B, H, r1, t1, gamma, b0)
+    R2, D2, ret2, disc2 = run_nstep(E, "c2.", B, H, r2, t2, gamma, b0)
+    if conc(H):
+        E.oblige("nstep.return_independent_of_other_rows_and_post_terminal_data", C.compare("==", ret1.at(b0), ret2.at(b0)))
+        E.oblige("nstep.discount_zero_after_termination", C.band(C.compare("==", disc1.at(b0), 0), C.compare("==", disc2.at(b0), 0)))
+        return
+    cz, hz = c.z, T.dim_z(H)
+    induct(E, "nstep.spec_noninterference", H, [],
+           lambda k: z3.And(R1(k) == R2(k), D1(k) == D2(k), z3.Implies(k > cz, z3.And(D1(k) == 0, D2(k) == 0))),
+           base_hints=lambda: [], step_hints=lambda k: [("c1.nstep.rec", (k,)), ("c2.nstep.rec", (k,)), ("agree", (k,))])
+    hints = [("nstep.spec_noninterference.ind", (hz,))]
+    oblige_hinted(E, "nstep.return_independent_of_other_rows_and_post_terminal_data", C.compare("==", ret1.at(b0), ret2.at(b0)), hints)
+    oblige_hinted(E, "nstep.discount_zero_after_termination", C.band(C.compare("==", disc1.at(b0), 0), C.compare("==", disc2.at(b0), 0)), hints)
+    E.oblige("canary.nstep_ni", C.compare("==", ret1.at(b0), 0), assume_after=False)
+
+
+# ================================================================ reward-to-go
 RTG = "rl_blox.algorithm.reinforce.discounted_reward_to_go"
-
-
-def rtg_spec(E, name, n, rew, gamma):
-    """G_t = r_t + gamma * G_{t+1},  G_n = 0   (rew: z3 Int -> z3 Real)"""
-    G = z3.Function(E.st.fresh_name(name), INT, REAL)
-    nz, g = T.dim_z(n), zr(gamma)
-    E.assume(G(nz) == 0)
-    E.st.assume_forall([INT], lambda t: z3.Implies(z3.And(t >= 0, t < nz), G(t) == rew(t) + g * G(t + 1)), f"{name}.rec")
-    return G
 
 
 def rtg_loop(L):
@@ -221,45 +356,62 @@ def setup_rtg(shared):
     shared.loop_specs[(RTG, 0)] = LoopSpec(inv=rtg_loop, havoc_extra=rtg_havoc)
 
 
-def h_rtg(E):
-    n = E.dim("T")
-    rewards = fresh_symlist(E, "rewards", [REAL], length=n)
-    gamma = E.real("gamma", 0, 1)
+def run_rtg(E, pre, n, rewards, gamma, i0):
     col = rewards.cols[0]
-    G = rtg_spec(E, "G", n, lambda t: z3.Select(col, t), gamma)
-    i0 = E.int("i0", 0)
-    E.assume(i0 < n)
-    E.st.add_pool(i0)
+    G = rtg_spec(E, pre + "G", n, lambda t: z3.Select(col, t), gamma)
     E.st.ghost["c07.rtg"] = dict(i0=i0, G=G, n=T.dim_z(n))
     out = E.call(RTG, rewards, gamma)
-    if isinstance(out, T.Tensor) and out.ndim == 1:
-        E.st.ok("rtg.output_is_vector")
-        E.oblige("rtg.one_return_per_reward", C.compare("==", out.shape[0], n))
-        E.oblige("rtg.return_is_recurrence", C.compare("==", out.at(i0), Sym(G(i0.z))))
-        E.oblige("canary.rtg", C.compare("==", out.at(i0), 0), assume_after=False)
+    if not (isinstance(out, T.Tensor) and out.ndim == 1):
+        E.st.fail(pre + "rtg.output_is_vector", f"got {out!r}")
+        return G, None
+    E.st.ok(pre + "rtg.output_is_vector")
+    E.oblige(pre + "rtg.one_return_per_reward", C.compare("==", out.shape[0], n))
+    E.oblige(pre + "rtg.return_is_recurrence", C.compare("==", out.at(i0), Sym(G(i0.z))))
+    return G, out
+
+
+def mk_h_rtg(size=None):
+    def h(E):
+        n = size if size is not None else E.dim("T")
+        rewards = fresh_symlist(E, "rewards", [REAL], length=n)
+        gamma = E.real("gamma", 0, 1)
+        i0 = generic_row(E, n, "i0")
+        G, out = run_rtg(E, "", n, rewards, gamma, i0)
+        if out is not None:
+            E.oblige("canary.rtg", C.compare("==", out.at(i0), 0), assume_after=False)
+
+    return h
+
+
+def h_rtg_causal(E):
+    """the return of step i0 depends only on the rewards at i0 and later"""
+    n = E.dim("T")
+    gamma = E.real("gamma", 0, 1)
+    rw1, rw2 = fresh_symlist(E, "rewards1", [REAL], length=n), fresh_symlist(E, "rewards2", [REAL], length=n)
+    i0 = generic_row(E, n, "i0")
+    c1, c2 = rw1.cols[0], rw2.cols[0]
+    axiom(E, "agree", [n], lambda s: z3.Implies(s >= i0.z, z3.Select(c1, s) == z3.Select(c2, s)))
+    G1, out1 = run_rtg(E, "c1.", n, rw1, gamma, i0)
+    G2, out2 = run_rtg(E, "c2.", n, rw2, gamma, i0)
+    if out1 is None or out2 is None:
+        return
+    if not conc(n):
+        nz, iz = T.dim_z(n), i0.z
+        induct(E, "rtg.spec_causality", n - i0, [], lambda k: z3.Implies(k <= nz - iz, G1(nz - k) == G2(nz - k)),
+               base_hints=lambda: [], step_hints=lambda k: [("c1.G.rec", (nz - k - 1,)), ("c2.G.rec", (nz - k - 1,)), ("agree", (nz - k - 1,))])
+        oblige_hinted(E, "rtg.return_independent_of_earlier_rewards", C.compare("==", out1.at(i0), out2.at(i0)), [("rtg.spec_causality.ind", (nz - iz,))])
     else:
-        E.st.fail("rtg.output_is_vector", f"got {out!r}")
+        E.oblige("rtg.return_independent_of_earlier_rewards", C.compare("==", out1.at(i0), out2.at(i0)))
+    E.oblige("canary.rtg_causal", C.compare("==", out1.at(i0), 0), assume_after=False)
 
 
-# ------------------------------------------------------------ batched GAE (A2C)
+# ====================================================== batched GAE (A2C, vmap)
 A2C = "rl_blox.algorithm.a2c.prepare_a2c_batch"
 DISCRETE = "gymnasium.spaces.Discrete"
 
 
-def gae_spec_env(E, name, n, N, r, V, Vn, term, gamma, lam):
-    """per-environment GAE: A(e, t) from environment e's own column only
-    (r, V, Vn, term: python functions (t, e) -> z3 Real)"""
-    A = z3.Function(E.st.fresh_name(name), INT, INT, REAL)
-    nz, Nz, g, l = T.dim_z(n), T.dim_z(N), zr(gamma), zr(lam)
-    E.st.assume_forall([INT], lambda e: A(e, nz) == 0, f"{name}.end")
-    E.st.assume_forall([INT, INT], lambda e, t: z3.Implies(
-        z3.And(e >= 0, e < Nz, t >= 0, t < nz),
-        A(e, t) == r(t, e) + g * Vn(t, e) * (1 - term(t, e)) - V(t, e) + g * l * (1 - term(t, e)) * A(e, t + 1)), f"{name}.rec")
-    return A
-
-
 def index_lemma(E, name, N):
-    """row-major index arithmetic: (t*N + e) // N == t and (t*N + e) % N == e for 0 <= e < N"""
+    """row-major index arithmetic: (t*N + e) // N == t and (t*N + e) % N == e for 0 <= e < N, t >= 0"""
     Nz = T.dim_z(N)
 
     def fn(t, e):
@@ -277,7 +429,7 @@ def mk_h_a2c(sizes=None):
         last_obs = rows_tensor(E, "last_obs", (N,), D)
         actions = T.fresh_tensor("actions", (n, N), INT)
         rewards = T.fresh_tensor("rewards", (n, N), REAL)
-        terms = flags2(E, "terminations", (n, N))
+        terms = flags(E, "terminations", (n, N))
         buf = E.new_obj("rl_blox.blox.replay_buffer.ReplayBuffer", name="rollout_buffer",
                         buffer={"obs": obs, "actions": actions, "rewards": rewards, "terminations": terms})
         vf = mk_net(E, "value_function", 1)
@@ -285,51 +437,41 @@ def mk_h_a2c(sizes=None):
         gamma, lam = E.real("gamma", 0, 1), E.real("lmbda", 0, 1)
         # documented inputs of the estimator: V(o[t,e]) and the bootstrap V(last_obs[e]) after the last step
         Vobs, Vlast = net_call(E, vf, obs), net_call(E, vf, last_obs)
-        nz = T.dim_z(n)
+        nz, Nz = T.dim_z(n), T.dim_z(N)
         V = lambda t, e: zr(Vobs.at(t, e, 0))  # noqa: E731
         Vn = lambda t, e: z3.If(t + 1 < nz, zr(Vobs.at(t + 1, e, 0)), zr(Vlast.at(e, 0)))  # noqa: E731
         A = gae_spec_env(E, "A", n, N, lambda t, e: zr(rewards.at(t, e)), V, Vn, lambda t, e: zr(terms.at(t, e)), gamma, lam)
-        if not sizes:
+        if not conc(N):
             index_lemma(E, "a2c.index.row_major", N)
         fobs, fact, fadv, fret = E.call(A2C, buf, vf, last_obs, space, gamma, lam)
-        Nz = T.dim_z(N)
-        fold_is(E, "a2c.fold", n, lambda sc, e, k: z3.Implies(z3.And(e >= 0, e < Nz), sc["funs"][0](e, k) == A(e, nz - k)),
-                lambda: [], sorts=[INT],
-                base_hints=lambda sc, e: [(f"scan{sc['id']}.init", (e,)), ("A.end", (e,))],
-                step_hints=lambda sc, e, k: [(f"scan{sc['id']}.step", (e, k)), ("A.rec", (e, nz - 1 - k)),
-                                             ("a2c.index", (nz - 1 - k, e)), ("a2c.index", (nz - k, e))])
         total = T.norm_dim(C.binop("*", n, N))
         shape_is(E, "a2c.advantages_shape", fadv, (total,))
         shape_is(E, "a2c.returns_shape", fret, (total,))
-        sid = E.st.ghost["scans"][-1]["id"] if E.st.ghost.get("scans") else None
+        sc = last_scan(E)
+        sid = sc["id"] if sc else None
+        if sc:
+            fold_is(E, "a2c.fold", n, lambda sc, e, k: z3.Implies(z3.And(e >= 0, e < Nz), sc["funs"][0](e, k) == A(e, nz - k)), sorts=[INT],
+                    base_hints=lambda sc, e: [(f"scan{sid}.init", (e,)), ("A.end", (e,))],
+                    step_hints=lambda sc, e, k: [(f"scan{sid}.step", (e, k)), ("A.rec", (e, nz - 1 - k)), ("a2c.index", (nz - 1 - k, e)), ("a2c.index", (nz - k, e))])
 
-        def flat(t, e):
+        def flat(t, e):  # time-major flattening documented for the outputs: (Time * Num_Envs,)
             return C.binop("+", C.binop("*", Sym(t), N), Sym(e))
 
-        def rng(t, e):
-            return z3.And(t >= 0, t < nz, e >= 0, e < Nz)
-
         def hints(t, e, *_):
-            if sid is None:
-                return []
             return [("a2c.index", (t, e)), ("a2c.index", (t + 1, e)), (f"scan{sid}.step", (e, nz - 1 - t)), ("a2c.fold.ind", (e, nz - t)),
                     ("a2c.fold.ind", (e, nz - 1 - t))]
 
-        forall_hinted(E, "a2c.advantage_is_own_env_gae", [INT, INT],
-                      lambda t, e: z3.Implies(rng(t, e), zr(fadv.at(flat(t, e))) == A(e, t)), hints, hint="te")
-        forall_hinted(E, "a2c.returns_is_own_env_gae_plus_value", [INT, INT],
-                      lambda t, e: z3.Implies(rng(t, e), zr(fret.at(flat(t, e))) == A(e, t) + V(t, e)), hints, hint="te")
-        forall_hinted(E, "a2c.observation_row_of_flat_index", [INT, INT, INT],
-                      lambda t, e, d: z3.Implies(z3.And(rng(t, e), d >= 0, d < T.dim_z(D)), zr(fobs.at(flat(t, e), Sym(d))) == zr(obs.at(t, e, d))),
-                      lambda t, e, d: [("a2c.index", (t, e))] if sid is not None else [], hint="ted")
-        tc, ec = E.int("t_c", 0), E.int("e_c", 0)
-        E.assume(C.band(tc < n, ec < N))
-        oblige_hinted(E, "canary.a2c", C.compare("==", fadv.at(flat(tc.z, ec.z)), 0), hints(tc.z, ec.z) + ([("A.rec", (ec.z, tc.z))] if sid is not None else []))
+        forall_idx(E, "a2c.advantage_is_own_env_gae", [n, N], lambda t, e: zr(fadv.at(flat(t, e))) == A(e, t), hints, hint="te")
+        forall_idx(E, "a2c.returns_is_own_env_gae_plus_value", [n, N], lambda t, e: zr(fret.at(flat(t, e))) == A(e, t) + V(t, e), hints, hint="te")
+        forall_idx(E, "a2c.observation_row_of_flat_index", [n, N, D], lambda t, e, d: zr(fobs.at(flat(t, e), Sym(d))) == zr(obs.at(t, e, d)),
+                   lambda t, e, d: [("a2c.index", (t, e))], hint="ted")
+        tc, ec = generic_row(E, n, "t_c"), generic_row(E, N, "e_c")
+        oblige_hinted(E, "canary.a2c", C.compare("==", fadv.at(flat(tc.z, ec.z)), 0), known(E, hints(tc.z, ec.z) + [("A.rec", (ec.z, tc.z))]))
 
     return h
 
 
-# ------------------------------------------------------------ PPO: GAE on the flattened rollout
+# ============================================= PPO: GAE on the flattened rollout
 PPO_UPDATE = "rl_blox.algorithm.ppo.update_ppo"
 
 
@@ -354,12 +496,12 @@ def mk_h_ppo(sizes=None):
         observation = rows_tensor(E, "observation", (M,), D)
         action = T.fresh_tensor("action", (M,), INT)
         reward = T.fresh_tensor("reward", (M,), REAL)
-        terminated = flags01(E, "terminated", M)
+        terminated = flags(E, "terminated", (M,))
         next_value = T.fresh_tensor("next_value", (M,), REAL)
         critic = mk_net(E, "critic", 1)
         actor = mk_net(E, "actor", 1)
-        nz, Ez, Mz = T.dim_z(n), T.dim_z(Ne), T.dim_z(M)
-        gamma, lam = Fraction(99, 100), Fraction(95, 100)  # update_ppo uses compute_gae's defaults
+        nz, Mz = T.dim_z(n), T.dim_z(M)
+        gamma, lam = Fraction(99, 100), Fraction(95, 100)  # update_ppo relies on compute_gae's defaults
         Vc = net_call(E, critic, observation)
 
         def fl(t, e):  # env-major flattening produced by collect_trajectories.reshape_batch
@@ -374,45 +516,277 @@ def mk_h_ppo(sizes=None):
             return
         except _Stop:
             E.st.ok("update_ppo.calls_compute_gae")
-        call = E.st.ghost["c07.gae_call"]
-        adv, ret = call["result"].get("advantages"), call["result"].get("returns")
+        res = E.st.ghost["c07.gae_call"]["result"]
+        adv, ret = res.get("advantages"), res.get("returns")
         shape_is(E, "ppo.advantages_shape", adv, (M,))
+        if conc(Ne, n):
+            # per environment, in scan order: each link from the carry's definition, the recurrence at (e, t) and the previous link
+            for e in range(Ne):
+                prev = []
+                for t in range(n - 1, -1, -1):
+                    f = e * n + t
+                    a_et = A(z3.IntVal(e), z3.IntVal(t))
+                    only = definitions_of(E, adv.at(f), a_et, A(z3.IntVal(e), nz)) + prev
+                    g = C.as_bool(C.compare("==", adv.at(f), Sym(a_et)))
+                    ok = link(E, "post.per_env_gae", g, only)
+                    g2 = C.as_bool(C.compare("==", ret.at(f), Sym(a_et + zr(Vc.at(f, 0)))))
+                    link(E, "post.per_env_returns", g2, only)
+                    prev = [g] if ok else []
+                    if ok:
+                        E.assume(g)
+            E.oblige("canary.ppo", C.compare("==", adv.at(0), 0), assume_after=False)
+            return
         # what the code computes: ONE recurrence over the whole flattened array
-        AF = gae_spec(E, "AF", M, reward, T.Tensor((M,), lambda f: Vc.at(f, 0), REAL), next_value, terminated, gamma, lam)
+        AF = gae_spec(E, "AF", M, lambda f: zr(reward.at(f)), lambda f: zr(Vc.at(f, 0)), lambda f: zr(next_value.at(f)), lambda f: zr(terminated.at(f)), gamma, lam)
         fold_is(E, "ppo.fold", M, lambda sc, k: sc["carry"](k)[0].z == AF(Mz - k),
-                lambda: [(C.compare("==", adv.at(f), Sym(AF(z3.IntVal(f)))), [("AF.rec", (f,))], [adv.at(f), AF(Mz)]) for f in range(M - 1, -1, -1)],
                 base_hints=lambda sc: [], step_hints=lambda sc, k: [(f"scan{sc['id']}.step", (k,)), ("AF.rec", (Mz - 1 - k,))])
-        sid = E.st.ghost["scans"][-1]["id"] if E.st.ghost.get("scans") else None
-        ground = []
-        if sid is None:  # concrete sizes: every instance of the specification recurrences
-            ground = [("AF.rec", (f,)) for f in range(M)] + [("A.end", (e,)) for e in range(Ne)] + [("A.rec", (e, t)) for e in range(Ne) for t in range(n)]
-
-        def rng(t, e):
-            return z3.And(t >= 0, t < nz, e >= 0, e < Ez)
+        sid = last_scan(E)["id"]
 
         def hints(t, e):
-            if sid is None:
-                return ground
             f = fl(t, e)
-            return [(f"scan{sid}.step", (Mz - 1 - f,)), ("ppo.fold.ind", (Mz - f,)), ("ppo.fold.ind", (Mz - 1 - f,)), ("A.rec", (e, t)), ("AF.rec", (f,)),
-                    ("A.end", (e,))]
+            return [(f"scan{sid}.step", (Mz - 1 - f,)), ("ppo.fold.ind", (Mz - f,)), ("ppo.fold.ind", (Mz - 1 - f,)), ("A.rec", (e, t)), ("AF.rec", (f,)), ("A.end", (e,))]
 
-        forall_hinted(E, "post.per_env_gae", [INT, INT],
-                      lambda t, e: z3.Implies(rng(t, e), zr(adv.at(fl(t, e))) == A(e, t)), hints, hint="te")
-        forall_hinted(E, "post.per_env_returns", [INT, INT],
-                      lambda t, e: z3.Implies(rng(t, e), zr(ret.at(fl(t, e))) == A(e, t) + zr(Vc.at(fl(t, e), 0))), hints, hint="te")
-        tc, ec = E.int("t_c", 0), E.int("e_c", 0)
-        E.assume(C.band(tc < n, ec < Ne))
-        oblige_hinted(E, "canary.ppo", C.compare("==", adv.at(fl(tc.z, ec.z)), 0), hints(tc.z, ec.z))
+        # diagnosis (what the single scan does at the boundary between two environments): the last step of
+        # environment e < E-1 continues with the FIRST advantage of environment e+1 unless a termination flag cuts it
+        ez = E.st.fresh("e_b", INT)
+        fb = ez * nz + nz - 1
+        oblige_hinted(E, "diag.boundary_step_continues_into_next_env",
+                      z3.Implies(z3.And(ez >= 0, ez < T.dim_z(Ne) - 1),
+                                 zr(adv.at(fb)) == zr(reward.at(fb)) + zr(gamma) * zr(next_value.at(fb)) * (1 - zr(terminated.at(fb))) - zr(Vc.at(fb, 0))
+                                 + zr(gamma) * zr(lam) * (1 - zr(terminated.at(fb))) * zr(adv.at(fb + 1))),
+                      known(E, [(f"scan{sid}.step", (Mz - 1 - fb,)), (f"scan{sid}.step", (Mz - 2 - fb,)), ("ppo.fold.ind", (Mz - fb,)), ("ppo.fold.ind", (Mz - 1 - fb,)),
+                                ("ppo.fold.ind", (Mz - 2 - fb,)), ("AF.rec", (fb,)), ("AF.rec", (fb + 1,))]))
+        ok = forall_idx(E, "post.per_env_gae", [n, Ne], lambda t, e: zr(adv.at(fl(t, e))) == A(e, t), hints, hint="te")
+        if ok:
+            forall_idx(E, "post.per_env_returns", [n, Ne], lambda t, e: zr(ret.at(fl(t, e))) == A(e, t) + zr(Vc.at(fl(t, e), 0)), hints, hint="te")
+        else:
+            E.st.undecided("post.per_env_returns", "returns = advantages + values: depends on post.per_env_gae, which is not proved")
+        tc, ec = generic_row(E, n, "t_c"), generic_row(E, Ne, "e_c")
+        oblige_hinted(E, "canary.ppo", C.compare("==", adv.at(fl(tc.z, ec.z)), 0), known(E, hints(tc.z, ec.z)))
 
     return h
 
 
-TASKS = [Task("prepare_a2c_batch", mk_h_a2c()),
-         Task("update_ppo", mk_h_ppo(), setup=setup_ppo),
-         Task("update_ppo[E=2,T=2]", mk_h_ppo((2, 2)), setup=setup_ppo, bounded="E = 2 environments, T = 2 steps (scan unrolled)"),
-         Task("compute_gae", mk_h_gae()), Task("compute_gae[T=1]", mk_h_gae(1)), Task("compute_gae[defaults]", mk_h_gae(None, True)),
-         Task("compute_gae[T=3]", mk_h_gae(3), bounded="T = 3 (scan unrolled)"), Task("gae_noninterference", h_gae_ni), Task("reward_to_go", h_rtg, setup=setup_rtg), Task("n_step_return", h_nstep, setup=setup_nstep)]
+# ===================================== PPO: collect_trajectories (bounded sizes)
+PPO_COLLECT = "rl_blox.algorithm.ppo.collect_trajectories"
+VENV, ACTOR, CRITIC, LOGGER = "c07.VectorEnvStub", "c07.ActorStub", "c07.CriticStub", "c07.LoggerStub"
+
+
+@LIB.cls(VENV)
+def _venv(E, obj, name):
+    """vectorised environment stub: every step returns arbitrary per-environment data; info reports an
+    arbitrary subset of finished episodes with their final observations (gymnasium SAME_STEP autoreset
+    + RecordEpisodeStatistics keys, as read by collect_trajectories)"""
+    f = obj.fields
+    N, D = f["num_envs"], f["$D"]
+    if name == "num_envs":
+        return N
+    if name == "reset":
+        return Builtin("VectorEnv.reset", lambda E, **k: (f["$obs0"], {}))
+    if name == "step":
+        def step(E, action):
+            k = len(f["$steps"])
+            rec = dict(next_obs=rows_tensor(E, f"next_obs{k}", (N,), D), reward=T.fresh_tensor(f"reward{k}", (N,), REAL),
+                       terminated=T.fresh_tensor(f"terminated{k}", (N,), BOOL), truncated=T.fresh_tensor(f"truncated{k}", (N,), BOOL),
+                       final_obs=rows_tensor(E, f"final_obs{k}", (N,), D), finished=T.fresh_tensor(f"finished{k}", (N,), BOOL),
+                       ep_r=T.fresh_tensor(f"episode_r{k}", (N,), REAL), ep_l=T.fresh_tensor(f"episode_l{k}", (N,), INT), action=action)
+            f["$steps"].append(rec)
+            info = {"episode": {"r": rec["ep_r"], "l": rec["ep_l"]}, "final_obs": rec["final_obs"], "_episode": rec["finished"]}
+            return rec["next_obs"], rec["reward"], rec["terminated"], rec["truncated"], info
+        return Builtin("VectorEnv.step", step)
+    return NotImplemented
+
+
+@LIB.cls(ACTOR)
+def _actor(E, obj, name):
+    if name == "sample":
+        def sample(E, obs, key):
+            k = obj.fields["$n"]
+            obj.fields["$n"] = k + 1
+            return T.fresh_tensor(f"action{k}", (obs.shape[0],), INT, is_input=False)
+        return Builtin("policy.sample", sample)
+    return NotImplemented
+
+
+@LIB.cls(CRITIC)
+def _critic(E, obj, name):
+    """row-wise value network, observed: the inputs of every call are recorded; the value of row e of call k
+    is an uninterpreted function of (k, e) - which row was fed is what the obligations compare"""
+    if name == "__call__":
+        def call(E, x):
+            k = len(obj.fields["$calls"])
+            obj.fields["$calls"].append(x)
+            vf = z3.Function(f"critic_out{k}", INT, REAL)
+            return T.Tensor((x.shape[0], 1), lambda e, j: Sym(vf(C.to_z3(e))), REAL)
+        return Builtin("critic.__call__", call)
+    return NotImplemented
+
+
+@LIB.cls(LOGGER)
+def _logger(E, obj, name):
+    if name in ("record_stat", "start_new_episode"):
+        return Builtin(f"logger.{name}", lambda E, *a, **k: None)
+    return NotImplemented
+
+
+def mk_h_collect(N, Tn, with_logger=True):
+    def h(E):
+        D = E.dim("D_obs")
+        obs0 = rows_tensor(E, "obs0", (N,), D)
+        envs = E.new_obj(VENV, name="envs", num_envs=N, **{"$D": D, "$obs0": obs0, "$steps": []})
+        actor = E.new_obj(ACTOR, name="actor", **{"$n": 0})
+        critic = E.new_obj(CRITIC, name="critic", **{"$calls": []})
+        logger = E.new_obj(LOGGER, name="logger") if with_logger else None
+        key = E.val("key", KEY)
+        out = E.call(PPO_COLLECT, envs, actor, critic, key, Tn, logger, obs0, 0)
+        steps, calls = envs.fields["$steps"], critic.fields["$calls"]
+        if len(steps) != Tn or len(calls) != Tn:
+            E.st.fail("collect.one_step_and_one_value_per_iteration", f"{len(steps)} steps, {len(calls)} critic calls for batch_size {Tn}")
+            return
+        E.st.ok("collect.one_step_and_one_value_per_iteration")
+        rew, term, nval, ob = out.get("reward"), out.get("terminated"), out.get("next_value"), out.get("observation")
+        shape_is(E, "collect.reward_shape", rew, (N * Tn,))
+        shape_is(E, "collect.next_value_shape", nval, (N * Tn,))
+        Dz = T.dim_z(D)
+        for e in range(N):
+            for t in range(Tn):
+                f = e * Tn + t  # env-major flat index (reshape_batch)
+                st = steps[t]
+                E.oblige("post.reshape.reward_env_major", C.compare("==", rew.at(f), st["reward"].at(e)))
+                E.oblige("post.reshape.terminated_env_major", C.compare("==", term.at(f), st["terminated"].at(e)))
+                before = obs0 if t == 0 else steps[t - 1]["next_obs"]
+                d = E.st.fresh("d", INT)
+                E.oblige("post.reshape.observation_env_major", C.implies(C.band(Sym(d >= 0), Sym(d < Dz)), C.compare("==", ob.at(f, Sym(d)), before.at(e, Sym(d)))))
+                # the value attached to (t, e) is the critic's output for row e of call t ...
+                vf = z3.Function(f"critic_out{t}", INT, REAL)
+                E.oblige("post.next_value_is_own_row_of_critic_output", C.compare("==", nval.at(f), Sym(vf(z3.IntVal(e)))))
+                # ... and that row must be environment e's own successor observation: the final observation of
+                # its episode if it finished at this step, its next observation otherwise
+                if with_logger:
+                    succ = C.ite(st["finished"].at(e), st["final_obs"].at(e, Sym(d)), st["next_obs"].at(e, Sym(d)))
+                else:
+                    succ = st["next_obs"].at(e, Sym(d))
+                E.oblige("post.next_value_env", C.implies(C.band(Sym(d >= 0), Sym(d < Dz)), C.compare("==", calls[t].at(e, Sym(d)), succ)))
+        E.oblige("canary.collect", C.compare("==", nval.at(0), 0), assume_after=False)
+
+    return h
+
+
+# ============================= REINFORCE dataset (bounded episode count / lengths)
+DATASET = "rl_blox.algorithm.reinforce.EpisodeDataset"
+
+
+def mk_h_dataset(lengths):
+    def h(E):
+        D = E.dim("D_obs")
+        gamma = E.real("gamma", 0, 1)
+        eps, rws = [], []
+        for e, ln in enumerate(lengths):
+            ep, rw = [], []
+            for t in range(ln):
+                r = E.real(f"r_{e}_{t}")
+                ep.append((T.fresh_tensor(f"obs_{e}_{t}", (D,), REAL), E.int(f"act_{e}_{t}"), T.fresh_tensor(f"nobs_{e}_{t}", (D,), REAL), r))
+                rw.append(r)
+            eps.append(ep)
+            rws.append(rw)
+        ds = E.new_obj(DATASET, name="dataset", episodes=eps)
+        space = E.new_obj(DISCRETE, name="action_space", n=E.int("n_actions", 2), start=E.int("start"))
+        obs, acts, nobs, returns, gdisc = E.call(E.getattr(ds, "prepare_policy_gradient_dataset"), space, gamma)
+        total = sum(lengths)
+        shape_is(E, "dataset.returns_shape", returns, (total,))
+        shape_is(E, "dataset.gamma_discount_shape", gdisc, (total,))
+        off = 0
+        for e, ln in enumerate(lengths):
+            G = 0  # G_t = r_t + gamma G_{t+1} over episode e's OWN rewards, G_len = 0
+            spec = [None] * ln
+            for t in range(ln - 1, -1, -1):
+                G = rws[e][t] + gamma * G
+                spec[t] = G
+            for t in range(ln):
+                E.oblige("dataset.return_is_own_episode_reward_to_go", C.compare("==", returns.at(off + t), spec[t]))
+                E.oblige("dataset.gamma_discount_is_gamma_pow_t", C.compare("==", gdisc.at(off + t), gamma ** t))
+                E.oblige("dataset.action_offset", C.compare("==", acts.at(off + t), eps[e][t][1] - space.fields["start"]))
+            off += ln
+        E.oblige("canary.dataset", C.compare("==", returns.at(0), 0), assume_after=False)
+
+    return h
+
+
+# ================================================== MR.Q: n-step critic target
+MRQ_LOSS = "rl_blox.algorithm.mrq.mrq_loss"
+ENCODER = "rl_blox.blox.embedding.model_based_encoder.ModelBasedEncoder"
+DOUBLE_Q = "rl_blox.blox.double_qnet.ContinuousClippedDoubleQNet"
+
+
+def mk_encoder(E, name, Z, ZA, ZSA):
+    return E.new_obj(ENCODER, name=name, zs=mk_net(E, f"{name}.zs", Z), za=mk_net(E, f"{name}.za", ZA), zsa=mk_net(E, f"{name}.zsa", ZSA),
+                     zs_layer_norm=mk_net(E, f"{name}.ln", Z), activation=LIB.funcs["jax.nn.relu"], encoder_activation_in_last_layer=True, zs_dim=Z)
+
+
+def h_mrq(E):
+    """q_target_value[b] = (R_H(b) + D_H(b) * q_next[b] * target_reward_scale) / reward_scale with R_H / D_H the
+    truncated n-step return / residual discount of row b's own subtrajectory; a terminated subtrajectory
+    (any terminated step) gets no bootstrap at all, whatever follows the termination"""
+    B, H, Dm, Am = E.dim("B"), E.dim("H"), E.dim("D_obs"), E.dim("D_act")
+    Z, ZA, ZSA = E.dim("zs_dim"), E.dim("za_dim"), E.dim("zsa_dim")
+    obs, nobs = rows_tensor(E, "obs", (B,), Dm), rows_tensor(E, "next_obs", (B,), Dm)
+    act, nact = rows_tensor(E, "action", (B,), Am), rows_tensor(E, "next_action", (B,), Am)
+    r = T.fresh_tensor("reward", (B, H), REAL)
+    term = flags(E, "terminated", (B, H))
+    gamma, rs, trs = E.real("gamma", 0, 1), E.real("reward_scale"), E.real("target_reward_scale")
+    E.assume(rs > 0)
+    q = E.new_obj(DOUBLE_Q, name="q", q1=mk_net(E, "q1", 1), q2=mk_net(E, "q2", 1))
+    qt = E.new_obj(DOUBLE_Q, name="q_target", q1=mk_net(E, "q1_target", 1), q2=mk_net(E, "q2_target", 1))
+    enc, enct = mk_encoder(E, "encoder", Z, ZA, ZSA), mk_encoder(E, "encoder_target", Z, ZA, ZSA)
+    b0 = generic_row(E, B)
+    R, D = nstep_spec(E, "nstep", H, lambda t: zr(r.at(b0, t)), lambda t: zr(term.at(b0, t)), gamma)
+    E.st.ghost["c07.nstep"] = dict(b0=b0, R=R, D=D)
+    loss, (zs, q_mean, max_td) = E.call(MRQ_LOSS, q, qt, enc, enct, nact, (obs, act, r, nobs, term, None), gamma, rs, trs)
+    # bootstrap and predictions as documented: target networks on (next_obs, next_action), online critic on (obs, action)
+    nzs = E.call(E.getattr(enct, "encode_zs"), nobs)
+    q_next = E.call(qt, E.call(E.getattr(enct, "encode_zsa"), nzs, nact))
+    zsa = E.call(E.getattr(enc, "encode_zsa"), E.call(E.getattr(enc, "encode_zs"), obs), act)
+    q1p, q2p = net_call(E, q.fields["q1"], zsa).at(b0, 0), net_call(E, q.fields["q2"], zsa).at(b0, 0)
+    hz = T.dim_z(H)
+    y = (Sym(R(hz)) + Sym(D(hz)) * q_next.at(b0, 0) * trs) / rs
+    shape_is(E, "mrq.td_error_shape", max_td, (B,))
+    E.oblige("mrq.target_is_nstep_return_plus_discounted_bootstrap", C.compare("==", max_td.at(b0), C.smax(C.sabs(q1p - y), C.sabs(q2p - y))))
+    # terminated subtrajectory: D_H = 0 (induction along the recurrence), hence no bootstrap
+    c = E.int("first_term", 0)
+    E.assume(c < H)
+    E.assume(C.compare("==", term.at(b0, c), 1))
+    E.st.add_pool(c)
+    induct(E, "mrq.discount_zero_after_termination", H, [], lambda k: z3.Implies(k > c.z, D(k) == 0),
+           base_hints=lambda: [], step_hints=lambda k: [("nstep.rec", (k,))])
+    y0 = Sym(R(hz)) / rs
+    oblige_hinted(E, "mrq.terminated_subtrajectory_has_no_bootstrap", C.compare("==", max_td.at(b0), C.smax(C.sabs(q1p - y0), C.sabs(q2p - y0))),
+                  [("mrq.discount_zero_after_termination.ind", (hz,))])
+    E.oblige("canary.mrq", C.compare("==", max_td.at(b0), 0), assume_after=False)
+
+
+TASKS = [
+    Task("mrq_loss_target", h_mrq, setup=setup_nstep),
+    Task("prepare_policy_gradient_dataset[2 episodes]", mk_h_dataset((2, 3)), setup=setup_rtg, bounded="2 episodes of lengths 2 and 3"),
+    Task("prepare_policy_gradient_dataset[1-step episodes]", mk_h_dataset((1, 1, 2)), setup=setup_rtg, bounded="3 episodes of lengths 1, 1, 2"),
+    Task("collect_trajectories[E=2,T=2]", mk_h_collect(2, 2), bounded="2 environments, batch_size 2, any subset of episodes finishing at each step"),
+    Task("collect_trajectories[no logger]", mk_h_collect(2, 2, False), bounded="2 environments, batch_size 2, logger=None"),
+    Task("compute_gae", mk_h_gae()),
+    Task("compute_gae[T=1]", mk_h_gae(1)),
+    Task("compute_gae[defaults]", mk_h_gae(None, True)),
+    Task("compute_gae[T=3]", mk_h_gae(3), bounded="T = 3 (scan unrolled)"),
+    Task("gae_noninterference", h_gae_ni),
+    Task("n_step_return", mk_h_nstep(), setup=setup_nstep),
+    Task("n_step_return[H=1]", mk_h_nstep(1), setup=setup_nstep),
+    Task("n_step_return[H=3]", mk_h_nstep(3), setup=setup_nstep, bounded="horizon H = 3 (loop unrolled)"),
+    Task("n_step_noninterference", h_nstep_ni, setup=setup_nstep),
+    Task("reward_to_go", mk_h_rtg(), setup=setup_rtg),
+    Task("reward_to_go[T=3]", mk_h_rtg(3), setup=setup_rtg, bounded="episode length 3 (loop unrolled)"),
+    Task("reward_to_go_causality", h_rtg_causal, setup=setup_rtg),
+    Task("prepare_a2c_batch", mk_h_a2c()),
+    Task("update_ppo", mk_h_ppo(), setup=setup_ppo),
+    Task("update_ppo[E=2,T=2]", mk_h_ppo((2, 2)), setup=setup_ppo, bounded="E = 2 environments, T = 2 steps (scan unrolled)"),
+]
+
 TRUSTED = []
 ASSUMPTIONS = []
 NOT_COVERED = []
